@@ -26,6 +26,10 @@ ROUTER = "repid.router.Router"
 
 
 def run(ctx: Ctx) -> None:
+    from .C07 import alphabet
+
+    with ctx.as_rule("R-C11-WIRING"):
+        alphabet(ctx, "R-C11-WIRING")  # queue and topic keep their places in every Redis key that is built, parsed and re-built
     from .shared import connection_propagation
 
     connection_propagation(ctx, "R-C11-WIRING")  # the worker / queue / handle chain stays on one connection
@@ -224,7 +228,9 @@ def filters(ctx: Ctx, rule="R-C11-FILTER") -> None:
     r = flow.reach_under(g, _topic_env(False, extra=paused), flow.NORMAL_KINDS)
     put = [g.nodes[i] for i in r if g.nodes[i].kind == "call" and (g.nodes[i].callee or "") == "self.queue.put"]
     ctx.check(len(put) == 1, rule, f, "rabbitmq: own topic -> handed to the local queue", "queue.put", "rabbitmq on_new_message does not hand out a message of its own topic", instance="rabbitmq own topic")
-    from .brokers import rabbit_bounce_rules
+    from .brokers import rabbit_bounce_rules, redis_scan_exhaustive
+
+    redis_scan_exhaustive(ctx, rule)
 
     rabbit_bounce_rules(ctx, rule)
     tests = [t for t in g.nodes if t.kind == "test" and _mentions(t.ast, "topics")]
